@@ -36,9 +36,10 @@ PROPS = {
                  "Non-trivial = some [*] path evaluated to >=2 elements or some path has >=2 index steps (values: "
                  ">=2 steps or a present indexed value); distinct by hash of (canonical text, context)."),
         "quick": [st("rel")],
-        "thorough": [st("rel"), st("dbg"), st("asan")],
+        "thorough": [st("rel"), st("dbg"), st("asan"), st("miri", only="random", jobs=4, timeout=5400)],
         "floors": {"quick": {"evaluations": 60000, "distinct_nontrivial": 20000,
                              "evals_with_ragged_operands": 1000}},
+        "on_death": "sanitizer",
         "assumptions": COMMON_ASSUMPTIONS,
     },
     "C03": {
@@ -51,9 +52,10 @@ PROPS = {
                  "(site, arguments, result) log written by the functions and the definition-context event log. "
                  "Non-trivial = at least one call was evaluated; distinct by hash of (canonical text, context)."),
         "quick": [st("rel")],
-        "thorough": [st("rel"), st("dbg"), st("asan")],
+        "thorough": [st("rel"), st("dbg"), st("asan"), st("miri", only="random", jobs=4, timeout=5400)],
         "floors": {"quick": {"evaluations": 30000, "distinct_nontrivial": 15000, "calls_observed": 30000,
                              "ctx_events": 10000}},
+        "on_death": "sanitizer",
         "assumptions": COMMON_ASSUMPTIONS,
     },
     "C06": {
@@ -116,7 +118,8 @@ PROPS = {
                      st("rel", name="scalar", env={"WIREFILTER_USE_AVX2": "0"}, extra={"avx2": "0"}),
                      st("asan", name="avx2", env={"WIREFILTER_USE_AVX2": "1"}, extra={"avx2": "1"}),
                      st("asan", name="scalar", env={"WIREFILTER_USE_AVX2": "0"}, extra={"avx2": "0"}),
-                     st("dbg", name="avx2", env={"WIREFILTER_USE_AVX2": "1"}, extra={"avx2": "1"})],
+                     st("dbg", name="avx2", env={"WIREFILTER_USE_AVX2": "1"}, extra={"avx2": "1"}),
+                     st("miri-avx2", name="avx2", env={"WIREFILTER_USE_AVX2": "1"}, extra={"avx2": "1"}, jobs=4, timeout=5400)],
         "floors": {"quick": {"evaluations": 500000, "rel:avx2:searcher_avx2_array": 500,
                              "rel:avx2:searcher_avx2_boxed": 2000, "rel:scalar:searcher_memmem": 150,
                              "rel:avx2:searcher_memchr": 1, "rel:avx2:searcher_empty": 1}},
@@ -257,8 +260,9 @@ PROPS = {
                  "heterogeneous element lists; typed: the transmute-based TypedArray/TypedMap accessors. "
                  "distinct_nontrivial = distinct histories of length >=2."),
         "quick": [st("rel")],
-        "thorough": [st("rel"), st("dbg"), st("asan")],
+        "thorough": [st("rel"), st("dbg"), st("asan"), st("miri", only="typed", jobs=2, name="typed", timeout=5400), st("miri", only="constructors", jobs=2, name="constructors", timeout=5400)],
         "floors": {"quick": {"evaluations": 150000, "distinct_nontrivial": 12000, "heterogeneous_inputs": 800}},
+        "on_death": "sanitizer",
         "assumptions": COMMON_ASSUMPTIONS,
         "technique": "runtime monitoring: bounded-exhaustive and random operation histories against an abstract typed-map model with a deep-type invariant walked after every step",
     },
@@ -300,6 +304,7 @@ PROPS = {
         "thorough": [st("rel", timeout=7200), st("dbg", timeout=7200), st("asan", timeout=7200)],
         "floors": {"quick": {"evaluations": 150000, "distinct_nontrivial": 60000, "children_run": 57,
                              "parse_errors": 100000, "parsed_ok": 3000}},
+        "on_death": "sanitizer",
         "assumptions": COMMON_ASSUMPTIONS + ["'never fails to terminate' is restated as bounded progress (10 s + 1 ms per input byte); 'bounded stack' as no overflow on a 2 MiB thread (optimised) / 8 MiB (unoptimised)"],
         "technique": "runtime monitoring: total-function oracle (no panic / process survives / time budget / error well-formedness via hooked span and Display) over token soup, mutated filters, exhaustive truncations and isolated pathological inputs",
     },
@@ -320,6 +325,7 @@ PROPS = {
         "thorough": [st("rel"), st("dbg"), st("asan")],
         "floors": {"quick": {"evaluations": 30000, "distinct_nontrivial": 8000, "round_trips_ok": 5000,
                              "mutants_accepted": 3000, "mutants_rejected": 10000, "ffi_ok": 500}},
+        "on_death": "sanitizer",
         "assumptions": COMMON_ASSUMPTIONS + ["the JSON acceptance model in props/c14.rs is the documented encoding (strings or byte arrays for Bytes, objects or pair arrays for maps)"],
     },
     "C18": {
@@ -336,7 +342,7 @@ PROPS = {
                  "The thorough tier repeats the storm under ThreadSanitizer (std rebuilt and instrumented). "
                  "distinct_nontrivial = distinct (filter, context) cells + (mode, thread count) pairs + processes."),
         "quick": [st("rel", timeout=1800)],
-        "thorough": [st("rel", timeout=7200), st("tsan", timeout=7200)],
+        "thorough": [st("rel", timeout=7200), st("tsan", timeout=7200), st("miri", only="storm", jobs=2, timeout=7200, env={"MIRIFLAGS_EXTRA": "-Zmiri-many-seeds=0..8"})],
         "floors": {"quick": {"evaluations": 800000, "distinct_nontrivial": 400, "children_run": 60}},
         "on_death": "sanitizer",
         "assumptions": COMMON_ASSUMPTIONS + ["the sequential execution in the same process is the reference; schedules are whatever the OS produces for barrier-released threads (plus TSan's happens-before analysis in the thorough tier)"],
@@ -359,7 +365,9 @@ PROPS = {
                  "catcher enabled must give Status::Panic with the message in last-error, must not unwind, and the "
                  "next call on the thread must work. distinct_nontrivial = distinct filter texts / sequences."),
         "quick": [st("rel")],
-        "thorough": [st("rel"), st("dbg"), st("asan", env={"ASAN_OPTIONS": "halt_on_error=1:abort_on_error=1:detect_leaks=1"})],
+        "thorough": [st("rel"), st("dbg"), st("asan", env={"ASAN_OPTIONS": "halt_on_error=1:abort_on_error=1:detect_leaks=1"}),
+                     st("miri", only="panics", jobs=2, name="panics", timeout=5400), st("miri", only="setters", jobs=2, name="setters", timeout=5400),
+                     st("miri", only="differential", jobs=2, name="differential", timeout=5400)],
         "floors": {"quick": {"evaluations": 150000, "distinct_nontrivial": 3000, "matches_compared": 2500,
                              "parse_errors_compared": 500, "setter_failures": 8000, "setter_successes": 800,
                              "panics_reported_as_status": 150}},
